@@ -644,6 +644,8 @@ type muxWorld struct {
 	pending []*httpResp
 	closed  bool
 	errCall *writeCall
+	// observation/probe requests of the harness never park at hooks when this is set
+	probesBypassHooks bool
 
 	// observation state (filled by observe)
 	obs *muxObs
@@ -734,8 +736,32 @@ func (w *muxWorld) idleRequester() *Task {
 		}
 	}
 	t := w.r.Go(fmt.Sprintf("req%d", len(w.reqs)))
+	t.NoHook = w.probesBypassHooks
 	w.reqs = append(w.reqs, t)
 	return t
+}
+
+// newClient creates a requester task that does park at armed hook sites.
+func (w *muxWorld) newClient(name string) *Task {
+	return w.r.Go(name)
+}
+
+// request issues a request on a given (idle) task without waiting for rest.
+func (w *muxWorld) request(t *Task, pathAndQuery string) *httpResp {
+	u, err := url.Parse("http://origin/" + pathAndQuery)
+	if err != nil {
+		panic(err)
+	}
+	resp := &httpResp{path: pathAndQuery, hdr: http.Header{}, invoke: w.progress(), task: t}
+	w.pending = append(w.pending, resp)
+	req := &http.Request{Method: "GET", URL: u, Header: http.Header{}}
+	t.StartNoWait(func() {
+		w.m.Handle(&respWriter{resp}, req)
+		resp.mu.Lock()
+		resp.done = true
+		resp.mu.Unlock()
+	})
+	return resp
 }
 
 // get issues a request through a requester task and waits for the system to rest.
